@@ -16,6 +16,7 @@
 package client
 
 import (
+	"context"
 	"fmt"
 	"io"
 	"net/http"
@@ -54,10 +55,17 @@ type SumDBClient struct {
 
 // NewSumDB creates a new client that fetches tiles of the given height.
 func NewSumDB(height int, verifier note.Verifier, url string, c *http.Client) *SumDBClient {
+	return NewSumDBWithContext(context.Background(), height, verifier, url, c)
+}
+
+// NewSumDBWithContext creates a new client that fetches tiles of the given height,
+// and whose requests are all bound to ctx: they end when ctx does.
+func NewSumDBWithContext(ctx context.Context, height int, verifier note.Verifier, url string, c *http.Client) *SumDBClient {
 	return &SumDBClient{
 		height:    height,
 		verifiers: note.VerifierList(verifier),
 		fetcher: &HTTPFetcher{
+			ctx:     ctx,
 			c:       c,
 			baseURL: url,
 		},
@@ -145,6 +153,7 @@ func (c *SumDBClient) TileData(level, offset, partial int) ([]byte, error) {
 
 // HTTPFetcher gets the data over HTTP(S).
 type HTTPFetcher struct {
+	ctx     context.Context
 	c       *http.Client
 	baseURL string
 }
@@ -152,7 +161,11 @@ type HTTPFetcher struct {
 // GetData gets the data.
 func (f *HTTPFetcher) GetData(path string) ([]byte, error) {
 	target := f.baseURL + path
-	resp, err := f.c.Get(target)
+	req, err := http.NewRequestWithContext(f.ctx, http.MethodGet, target, nil)
+	if err != nil {
+		return nil, err
+	}
+	resp, err := f.c.Do(req)
 	if err != nil {
 		return nil, err
 	}
